@@ -186,6 +186,9 @@ pub struct SinkCfg {
     pub fail_at: Option<u32>,
     /// capacity in bytes; writes beyond it fail
     pub cap: u32,
+    /// the j-th call of an element's own `Debug`/`Display` (1-based) returns `Err` without writing
+    #[serde(default)]
+    pub elem_fail_at: Option<u32>,
 }
 
 /// Every safe entry point through which a key can be added.
@@ -243,6 +246,9 @@ pub struct SerdeCfg {
     pub flip_bit: Option<u16>,
     /// diagnostics only: serializer fails at this token
     pub ser_fail_at: Option<u16>,
+    /// diagnostics only: the deserializer reports an error instead of delivering this entry
+    #[serde(default)]
+    pub de_fail_at: Option<u16>,
 }
 
 #[derive(Clone, Debug, Serialize, Deserialize, PartialEq, Eq)]
